@@ -351,6 +351,9 @@ class HistogramND(HistogramBase):
         if value_array.dtype.kind == "f" and np.isnan(value_array).any():
             # Same as in construction and fill_n: rows with NaN's are skipped
             return None
+        if isinstance(weight, np.generic):
+            weight = weight.item()  # (Narrow numpy types would be squared in their own range)
+        weight2 = weight**2  # Whatever can fail, fails before anything is changed
         self._coerce_dtype(type(weight))
         for i, binning in enumerate(self._binnings):
             if binning.is_adaptive():
@@ -361,8 +364,10 @@ class HistogramND(HistogramBase):
             if self.keep_missed:
                 self._missed += weight
         else:
-            self._frequencies[ixbin] += weight
-            self._errors2[ixbin] += weight**2
+            frequency = self._frequencies[ixbin] + weight
+            error2 = self._errors2[ixbin] + weight2
+            self._frequencies[ixbin] = frequency
+            self._errors2[ixbin] = error2
         return ixbin
 
     def fill_n(
